@@ -28,7 +28,8 @@ type Scan struct {
 	IsJoin      bool     `json:"is_join,omitempty"`
 	Bounds      []Bound  `json:"bounds"`
 	Unknown     []string `json:"unknown,omitempty"`       // predicates on a time column that were not understood (infrastructure)
-	Phase       []string `json:"phase,omitempty"`         // `timestamp_ms % step ...` filters (only ever narrow the read)
+	Phase       []string `json:"phase,omitempty"`         // `timestamp_ms % step ...` filters (text)
+	PhaseF      *PhaseF  `json:"phase_f,omitempty"`       // ... parsed: Window.tla's step filter
 	InJoinBlock bool     `json:"in_join_block,omitempty"` // the block has JOIN / ARRAY JOIN clauses
 }
 
@@ -57,6 +58,94 @@ func isPhaseFilter(e chsql.Expr) bool {
 		return isNum && isNum2
 	}
 	return false
+}
+
+// PhaseF is a step filter `(ts_ms + Add) % Mod = 0 OR (ts_ms + Add) % Mod >= C` in parsed form (milliseconds): the
+// position of a sample within the step, with an optional clause for position 0 and an optional comparison.
+type PhaseF struct {
+	Mod  int64  `json:"mod"`
+	Add  int64  `json:"add"`
+	Eq0  bool   `json:"eq0"`
+	Op   string `json:"op"` // ge | gt | none
+	C    int64  `json:"c"`
+	Text string `json:"text"`
+}
+
+// Admits evaluates the filter on a stored timestamp (ns).
+func (p *PhaseF) Admits(tsNs int64) bool {
+	m := (floorTo(tsNs, 1e6)/1e6 + p.Add) % p.Mod
+	if m < 0 {
+		m += p.Mod
+	}
+	return (p.Eq0 && m == 0) || (p.Op == "ge" && m >= p.C) || (p.Op == "gt" && m > p.C)
+}
+
+// parsePhaseFilter understands disjunctions of `modulo(col [+ n], m) = 0` and `modulo(col [+ n], m) >= | > c` over one
+// position expression; anything else on a modulo of a time column is reported as not understood.
+func parsePhaseFilter(e chsql.Expr, ref *chsql.TableRef) (*PhaseF, bool) {
+	var dis []chsql.Expr
+	var flat func(x chsql.Expr)
+	flat = func(x chsql.Expr) {
+		if f, ok := x.(*chsql.FuncCall); ok && f.Name == "or" {
+			for _, a := range f.Args {
+				flat(a)
+			}
+			return
+		}
+		dis = append(dis, x)
+	}
+	flat(e)
+	p := &PhaseF{Op: "none", Text: e.String()}
+	first := true
+	for _, d := range dis {
+		f, ok := d.(*chsql.FuncCall)
+		if !ok || len(f.Args) != 2 {
+			return nil, false
+		}
+		op, ok := opName[f.Name]
+		if !ok {
+			return nil, false
+		}
+		m, ok := f.Args[0].(*chsql.FuncCall)
+		if !ok || m.Name != "modulo" || len(m.Args) != 2 {
+			return nil, false
+		}
+		c, ok1 := litNum(f.Args[1])
+		mod, ok2 := litNum(m.Args[1])
+		if !ok1 || !ok2 || mod <= 0 {
+			return nil, false
+		}
+		var add int64
+		pos := m.Args[0]
+		if pf, ok := pos.(*chsql.FuncCall); ok && (pf.Name == "plus" || pf.Name == "minus") && len(pf.Args) == 2 {
+			n, ok := litNum(pf.Args[1])
+			if !ok {
+				return nil, false
+			}
+			if pf.Name == "minus" {
+				n = -n
+			}
+			add, pos = n, pf.Args[0]
+		}
+		id, ok := pos.(*chsql.Ident)
+		if !ok || id.Parts[len(id.Parts)-1] != "timestamp_ms" {
+			return nil, false
+		}
+		if !first && (mod != p.Mod || add != p.Add) {
+			return nil, false
+		}
+		first = false
+		p.Mod, p.Add = mod, add
+		switch {
+		case op == "eq" && c == 0 && !p.Eq0:
+			p.Eq0 = true
+		case (op == "ge" || op == "gt") && p.Op == "none":
+			p.Op, p.C = op, c
+		default:
+			return nil, false
+		}
+	}
+	return p, !first
 }
 
 func flattenAnd(e chsql.Expr, out *[]chsql.Expr) {
@@ -269,6 +358,12 @@ func analyseScan(ref *chsql.TableRef) Scan {
 		}
 		if isPhaseFilter(c) {
 			sc.Phase = append(sc.Phase, c.String())
+			pf, ok := parsePhaseFilter(c, ref)
+			if !ok || sc.PhaseF != nil {
+				sc.Unknown = append(sc.Unknown, "step filter of a shape the extractor does not understand: "+c.String())
+				continue
+			}
+			sc.PhaseF = pf
 			continue
 		}
 		if mentionsTimeCol(c, ref) && !ref.IsJoin {
@@ -410,6 +505,34 @@ func dateLabels(day int64, ep *Endpoint, w Win) []string {
 	return keys(set)
 }
 
+// Sparse: a range-vector function evaluated with a step larger than its range.
+func (ep *Endpoint) Sparse() bool { return ep.Range > 0 && ep.Step > ep.Range && !ep.Instant }
+
+// evalStart / evalEnd: the first evaluation instant and the end of the evaluated interval of a Prometheus range query:
+// the controller moves start down and end up to whole 15 s (the widening a metric query is allowed), the engine
+// evaluates at evalStart + k * step <= evalEnd.
+func evalStart(ep *Endpoint, w Win) int64 { return floorTo(w.Start, s15Ns) }
+func evalEnd(ep *Endpoint, w Win) int64   { return ceilTo(w.End, s15Ns) }
+
+// subWindow: is ts (ns, at millisecond resolution) inside the range window [t - offset - range, t - offset] of an
+// evaluation instant t = evalStart + k * step <= evalEnd whose data end also lies inside the requested window?
+func subWindow(ep *Endpoint, w Win, ts int64) (int64, bool) {
+	if !ep.Sparse() {
+		return 0, false
+	}
+	step, rng, off := int64(ep.Step), int64(ep.Range), int64(ep.Offset)
+	e0 := evalStart(ep, w) - off
+	k := (ts - e0 + step - 1) / step // the first evaluation instant at or after ts
+	if ts <= e0 {
+		k = 0
+	}
+	t := e0 + k*step
+	if t+off > evalEnd(ep, w) || t+off > w.End || ts > t || ts < t-rng {
+		return 0, false
+	}
+	return t, true
+}
+
 func effStart(ep *Endpoint, w Win) int64 {
 	if ep.Instant {
 		return w.End
@@ -439,6 +562,11 @@ type ScanClass struct {
 	Bounds []Bound   `json:"bounds"`
 	Unk    []string  `json:"unknown,omitempty"`
 	IsJoin bool      `json:"is_join,omitempty"`
+	// the step filter against the request (Window.tla descriptor field ph): "" = none, else
+	// "<eq0>|<op>|<c>|<anchor>": clause for position 0 present; comparison operator; sign of (constant - (step - range));
+	// anchor of position 0: eval (the evaluation instants), start (the starts of the range windows), other
+	Phase  string  `json:"phase_cls"`
+	PhaseF *PhaseF `json:"phase_f,omitempty"`
 }
 
 type BoundCls struct {
@@ -448,7 +576,34 @@ type BoundCls struct {
 }
 
 func classify(sc Scan, ep *Endpoint, w Win) ScanClass {
-	c := ScanClass{Table: sc.Table, Bounds: sc.Bounds, Unk: sc.Unknown, IsJoin: sc.IsJoin}
+	c := ScanClass{Table: sc.Table, Bounds: sc.Bounds, Unk: sc.Unknown, IsJoin: sc.IsJoin, PhaseF: sc.PhaseF}
+	if p := sc.PhaseF; p != nil {
+		step, rng := int64(ep.Step)/1e6, int64(ep.Range)/1e6
+		switch {
+		case !ep.Sparse():
+			c.Extra = append(c.Extra, "step filter on a request whose step does not exceed its range: "+p.Text)
+		case p.Mod != step:
+			c.Extra = append(c.Extra, fmt.Sprintf("step filter whose modulus is not the step %d ms: %s", step, p.Text))
+		default:
+			ev0 := (evalStart(ep, w) - int64(ep.Offset)) / 1e6
+			anchor := "other"
+			if (ev0+p.Add)%p.Mod == 0 {
+				anchor = "eval"
+			} else if (ev0-rng+p.Add)%p.Mod == 0 {
+				anchor = "start"
+			}
+			sign := 0
+			if p.C > step-rng {
+				sign = 1
+			} else if p.C < step-rng {
+				sign = -1
+			}
+			if p.Op == "none" {
+				sign = 0
+			}
+			c.Phase = fmt.Sprintf("%v|%s|%d|%s", p.Eq0, p.Op, sign, anchor)
+		}
+	}
 	for _, b := range sc.Bounds {
 		switch b.Col {
 		case "ts":
